@@ -109,7 +109,12 @@ func termQ(v ssa.Value, qual bool) string {
 		ty, f, _ := fieldOf(t)
 		return "field:" + ty + "." + f
 	case *ssa.Parameter:
-		return "param:" + t.Name()
+		for i, p := range t.Parent().Params {
+			if p == t {
+				return fmt.Sprintf("param#%d", i)
+			}
+		}
+		return "param#?"
 	case *ssa.Lookup:
 		return "lookup:" + accessPath(t.X, 0)
 	case *ssa.TypeAssert:
